@@ -434,9 +434,6 @@ pub fn gen_break_steps(ch: &mut Chunker, r: &mut Rng, scale: usize) {
             w.push_str("  ");
         }
         let mut sp = *r.pick(&sps);
-        if w.contains('\u{1b}') && matches!(sp, Splitter::Every2 | Splitter::Every3) {
-            sp = Splitter::Hyphen;
-        }
         rec_break_steps(ch, &w, *r.pick(&[0usize, 1, 1, 2, 3, 5, 8, usize::MAX]), sp);
     }
 }
